@@ -108,6 +108,7 @@ type server struct {
 	apq       *recCache[string]
 	pre, post *observer
 	hdrName   string  // header configuration of the transports (hdrcfg.go)
+	errCfg    string  // recover func / error presenter configuration (fail.go)
 	hdr       hdrMaps // the map objects the transports were configured with
 	lastDrift string
 	// the server's *ast.Schema (its own, loaded when the server was built) and its structural hashes then
@@ -162,10 +163,13 @@ func newServer(qcKind, apqKind, hdrName string, seedAPQ map[string]string) *serv
 	return s
 }
 
-func newServerWith(es *ast.Schema, qcKind, apqKind, hdrName string, seedAPQ map[string]string) *server {
-	s := &server{pre: &observer{name: "pre"}, post: &observer{name: "post"}, hdrName: hdrName, hdr: mkHdrCfg(hdrName)}
+// opts = "<header configuration>[/<error configuration>]"
+func newServerWith(es *ast.Schema, qcKind, apqKind, opts string, seedAPQ map[string]string) *server {
+	hdrName, errCfg := splitOpts(opts)
+	s := &server{pre: &observer{name: "pre"}, post: &observer{name: "post"}, hdrName: hdrName, hdr: mkHdrCfg(hdrName), errCfg: errCfg}
 	s.es = es
 	s.h = handler.New(echoSchema{s.es})
+	s.applyErrCfg(errCfg)
 	tg, tp, tf, tq := s.hdr.transports()
 	s.h.AddTransport(tg)
 	s.h.AddTransport(tp)
@@ -193,6 +197,9 @@ type response struct {
 	status int
 	hdr    string
 	body   string
+	// "" if the errors of the body are exactly the failures the request's own resolvers raised (fail.go), otherwise
+	// the body with those errors
+	want string
 }
 
 func (r response) String() string { return fmt.Sprintf("%d %s %s", r.status, r.hdr, r.body) }
@@ -207,6 +214,8 @@ func (s *server) serve(q *rq) response {
 	if req.Header == nil {
 		req.Header = http.Header{}
 	}
+	fl := &failLog{}
+	req = req.WithContext(context.WithValue(req.Context(), failKey{}, fl))
 	rec := httptest.NewRecorder()
 	func() {
 		defer func() {
@@ -222,7 +231,7 @@ func (s *server) serve(q *rq) response {
 		hs = append(hs, k+"="+strings.Join(v, "|"))
 	}
 	sort.Strings(hs)
-	return response{rec.Code, strings.Join(hs, ";"), rec.Body.String()}
+	return response{rec.Code, strings.Join(hs, ";"), rec.Body.String(), ownErrorsCheck(s.errCfg, fl, rec.Body.String())}
 }
 
 // ---------------------------------------------------------------- classification of what the implementation did
@@ -413,7 +422,7 @@ func splitCfg(c string) (qc, apq, hdr string) {
 		apq = p[1]
 	}
 	if len(p) > 2 && p[2] != "" {
-		hdr = p[2]
+		hdr = strings.Join(p[2:], "/") // the server options: header configuration [/ error configuration]
 	}
 	return
 }
@@ -484,6 +493,46 @@ func replayHistory(path string) {
 	}
 }
 
+// freshItem: one request of the process oracle - served by a server that is built for it alone
+type freshItem struct {
+	Opts string            `json:"opts"` // "<header configuration>[/<error configuration>]"
+	Seed map[string]string `json:"seed,omitempty"`
+	Req  wireRq            `json:"req"`
+}
+
+// freshRun: the PROCESS oracle. Every request of the file is served by a freshly constructed server of its own, one
+// after the other in this one process (no GC in between: the package-level pool keeps its structs). Whatever such a
+// server answers must not depend on what the process served before: the check compares these answers with those of
+// another process that served the same requests in another order / among other requests, and with a process that
+// served the request alone.
+func freshRun(path string) {
+	b, err := os.ReadFile(path)
+	if err != nil {
+		panic(err)
+	}
+	var items []freshItem
+	if err := json.Unmarshal(b, &items); err != nil {
+		panic(err)
+	}
+	for i, it := range items {
+		w := it.Req
+		q := &rq{kind: w.Kind, method: w.Method, rawURL: w.RawURL, hdrs: w.Hdrs, body: w.Body, enc: w.Enc}
+		if q.hdrs == nil {
+			q.hdrs = http.Header{}
+		}
+		seed := it.Seed
+		if seed == nil {
+			seed = map[string]string{}
+		}
+		resp := newOracle(q, it.Opts, seed).serve(q)
+		want := "-"
+		if resp.want != "" {
+			want = hx(resp.want)
+		}
+		fmt.Fprintf(out, "F\t%d\t%s\t%s\n", i, tsv(resp.String()), want)
+	}
+}
+
 func b2i(b bool) int {
 	if b {
 		return 1
@@ -504,6 +553,15 @@ func emit(r *record, orc response, mode string) {
 		verdict = "DIFF"
 	}
 	extra := ""
+	if r.resp.want != "" {
+		// the errors of the response are not the failures of the request's own resolvers. A server built in the same
+		// process may share the state that did it, so the reference response is the one computed from the request
+		verdict = "DIFF"
+		orc = response{r.resp.status, r.resp.hdr, r.resp.want, ""}
+		extra += " errors-not-own:" + hx("the `errors` of the response are not the failures this request's own resolvers raised (path / message / extensions of each failure logged out of band by the probe resolvers); the reference response is the response with exactly those errors")
+	} else if orc.want != "" {
+		extra += " fresh-errors-not-own:" + hx("a FRESHLY CONSTRUCTED server of this process answered this request with errors that are not the failures of the request's own resolvers (state global to the process): here `response` is the stateful server's and `fresh_server_response` the fresh server's")
+	}
 	if len(r.docsBad) > 0 {
 		extra += " cached-doc-changed:" + hx(strings.Join(r.docsBad, "\x00"))
 	}
@@ -520,7 +578,7 @@ func emit(r *record, orc response, mode string) {
 		extra = "-"
 	}
 	orcText := "=" // the fresh server's response, `=` when it is the response
-	if orc != r.resp {
+	if verdict != "ok" {
 		orcText = tsv(orc.String())
 	}
 	// R sid idx mode cfg apqHit qcHit reused | enc | obs | verdict | extra | tags | request | response | oracle response | request as JSON
@@ -604,8 +662,18 @@ func main() {
 	seed := flag.Uint64("seed", 1, "")
 	race := flag.Bool("conc-only", false, "only the concurrent batches (race build)")
 	hist := flag.String("hist", "", "replay the history of this JSON file instead of generating")
+	fresh := flag.String("fresh", "", "serve every request of this JSON file on a newly built server of its own, in file order (process oracle)")
 	flag.Parse()
 	defer out.Flush()
+	// graphql.DefaultRecover prints every recovered panic value and a stack trace to os.Stderr; the runtime's own
+	// reports (fatal errors, the harness's panics, the race detector) do not go through this variable
+	if devnull, err := os.OpenFile(os.DevNull, os.O_WRONLY, 0); err == nil {
+		os.Stderr = devnull
+	}
+	if *fresh != "" {
+		freshRun(*fresh)
+		return
+	}
 	if *hist != "" {
 		replayHistory(*hist)
 		return
@@ -648,6 +716,9 @@ func main() {
 			hdrName := "none" // the default server in 1 of 3 histories, otherwise any header configuration
 			if g.pick(3) != 0 {
 				hdrName = hdrCfgNames[g.pick(len(hdrCfgNames))]
+			}
+			if g.pick(2) != 0 { // the default recover func and error presenter in 1 of 2 histories
+				hdrName += "/" + errCfgNames[1+g.pick(len(errCfgNames)-1)]
 			}
 			cfgName := cfg[0] + "/" + cfg[1] + "/" + hdrName
 			srv := newServer(cfg[0], cfg[1], hdrName, nil)
@@ -696,6 +767,9 @@ func main() {
 			if g.pick(3) == 0 {
 				hdrName = hdrCfgNames[g.pick(len(hdrCfgNames))]
 			}
+			if g.pick(3) == 0 {
+				hdrName += "/" + errCfgNames[1+g.pick(len(errCfgNames)-1)]
+			}
 			runGroup(sid, qcs[g.pick(3)]+"/lru1000/"+hdrName, randomGroup(g), g.pre)
 			sid++
 		}
@@ -717,6 +791,9 @@ func main() {
 	for b := 0; b < nbatch; b++ {
 		g := &gen{r: root.Fork(), conc: true, pre: []int{0, 2, 3, 4, 5}}
 		hdrName := hdrCfgNames[b%len(hdrCfgNames)]
+		if b%2 == 1 { // every other batch with a configured recover func / presenter
+			hdrName += "/" + errCfgNames[1+(b/2)%(len(errCfgNames)-1)]
+		}
 		cfgName := "lru1000/lru1000/" + hdrName
 		srv := newServer("lru1000", "lru1000", hdrName, nil)
 		seedAPQ := preRegister(srv, g.pre) // registrations before the batch
